@@ -150,7 +150,7 @@ class C15(Check):
         "Distinct by digest."
     )
     assumptions = ["write_union_type=False output is compared with the plain encoding only (it is documented as not re-readable)"]
-    required_labels = ["s:union", "s:map", "s:array", "s:ref", "s:enum", "s:fixed", "s:bytes", "top:non-record", "multi-record", "defaults-deleted", "plain-union", "nested-container-default", "top-level-null-document"]
+    required_labels = ["s:union", "s:map", "s:array", "s:ref", "s:enum", "s:fixed", "s:bytes", "top:non-record", "multi-record", "defaults-deleted", "plain-union", "nested-container-default", "top-level-null-document", "zero-records"]
     quick = (3500, 1)
     thorough = (8000, 16)
 
@@ -175,7 +175,7 @@ class C15(Check):
             ir, table, js = gen.build_schema(d, feat)
             gen.check_truth(ir, table, js)
             dg = JsonData(d, feat, table)
-            n = d.weighted([(1, 5), (2, 3), (3, 2)])
+            n = d.weighted([(1, 5), (2, 3), (3, 2), (0, 1)])
             return {"schema": js, "records": [dg.gen(ir, 5) for _ in range(n)], "write_union_type": not d.p(0.15), "parsed": d.p(0.3)}
 
         return cases()
@@ -272,6 +272,8 @@ class C15(Check):
         guard("json-write", json_writer, so, schema, recs, write_union_type=wut)
         text = so.getvalue()
         lines = text.split("\n") if text else []
+        if not recs:
+            labels.add("zero-records")
         if len(lines) != len(recs):
             raise Violation("json-line-count", f"{len(lines)} lines for {len(recs)} records; text={text!r:.300}; {ctx}")
         for line, r, trace in zip(lines, recs, traces):
